@@ -14,6 +14,17 @@ Core Lean only.  Python `int` is unbounded: `Int`.
                          recorded in the trusted base.
   x.bit_length()         Py.bitLength
   s in t (strings)       Py.contains t s
+
+String methods (exact Python semantics on `str` without lone surrogates; implemented on `List Char`, wrapped for `String`):
+  s.strip() / lstrip() / rstrip()            Py.strip / lstrip / rstrip      the `Py_UNICODE_ISSPACE` set `Py.isSpace`
+  s.strip(cs) / lstrip(cs) / rstrip(cs)      Py.stripChars / lstripChars / rstripChars   `cs` is a SET of characters (`Py.inChars`)
+  s.split(sep)                               Py.split s sep      leftmost non-overlapping occurrences, empty fields kept,
+                                                                 `''.split(',') = ['']`; `sep = ''` raises ValueError in Python:
+                                             Py.split? s sep     `none` for the empty separator (used when `sep` is not a literal)
+  sep.join(xs)                               Py.join sep xs
+  s.replace(a, b)                            Py.replace s a b    leftmost non-overlapping occurrences of a NON-EMPTY `a`
+  s[k:]                                      Py.dropStr s k      (k ≥ 0 literal; slices never raise)
+  xs[k:], xs[k], len(xs)                     List.drop k xs, xs[k]? (IndexError = none, bound by the translator), xs.length
 -/
 namespace Py
 
@@ -35,6 +46,66 @@ def containsL : List Char → List Char → Bool
 
 def contains (hay needle : String) : Bool := containsL hay.toList needle.toList
 def startsWith (s p : String) : Bool := p.toList.isPrefixOf s.toList
+
+/-! ### string methods -/
+
+/-- `Py_UNICODE_ISSPACE`: the characters removed by `str.strip()` without an argument -/
+def isSpace (c : Char) : Bool :=
+  let n := c.toNat
+  (0x09 ≤ n && n ≤ 0x0D) || (0x1C ≤ n && n ≤ 0x20) || n == 0x85 || n == 0xA0 || n == 0x1680 ||
+  (0x2000 ≤ n && n ≤ 0x200A) || n == 0x2028 || n == 0x2029 || n == 0x202F || n == 0x205F || n == 0x3000
+
+def lstripL (p : Char → Bool) (l : List Char) : List Char := l.dropWhile p
+def rstripL (p : Char → Bool) (l : List Char) : List Char := (l.reverse.dropWhile p).reverse
+def stripL (p : Char → Bool) (l : List Char) : List Char := rstripL p (lstripL p l)
+
+/-- membership in the character SET given to `strip(chars)` -/
+def inChars (chars : String) (c : Char) : Bool := chars.toList.contains c
+
+def strip (s : String) : String := String.ofList (stripL isSpace s.toList)
+def lstrip (s : String) : String := String.ofList (lstripL isSpace s.toList)
+def rstrip (s : String) : String := String.ofList (rstripL isSpace s.toList)
+def stripChars (s chars : String) : String := String.ofList (stripL (inChars chars) s.toList)
+def lstripChars (s chars : String) : String := String.ofList (lstripL (inChars chars) s.toList)
+def rstripChars (s chars : String) : String := String.ofList (rstripL (inChars chars) s.toList)
+
+/-- `s.split(sep)` on character lists, `sep ≠ []`.  The `Nat` counts the characters of a matched separator that are still
+to be skipped (0 at the start): at a position where `sep` is a prefix of the rest the current field ends and the separator is
+skipped (leftmost, non-overlapping – CPython's `find` loop); otherwise the character joins the current field. -/
+def splitL (sep : List Char) : Nat → List Char → List (List Char)
+  | _, [] => [[]]
+  | k + 1, _ :: cs => splitL sep k cs
+  | 0, c :: cs =>
+    if sep.isPrefixOf (c :: cs) then [] :: splitL sep (sep.length - 1) cs
+    else match splitL sep 0 cs with
+      | [] => [[c]]
+      | f :: fs => (c :: f) :: fs
+
+/-- `s.split(sep)` for a non-empty `sep` -/
+def split (s sep : String) : List String := (splitL sep.toList 0 s.toList).map String.ofList
+
+/-- `s.split(sep)`; `none` = `ValueError: empty separator` -/
+def split? (s sep : String) : Option (List String) := if sep = "" then none else some (split s sep)
+
+def joinL (sep : List Char) : List (List Char) → List Char
+  | [] => []
+  | [x] => x
+  | x :: y :: r => x ++ sep ++ joinL sep (y :: r)
+
+/-- `sep.join(xs)` -/
+def join (sep : String) (xs : List String) : String := String.ofList (joinL sep.toList (xs.map String.toList))
+
+/-- `s.replace(a, b)` on character lists, `a ≠ []`; the `Nat` as in `splitL` -/
+def replaceL (a b : List Char) : Nat → List Char → List Char
+  | _, [] => []
+  | k + 1, _ :: cs => replaceL a b k cs
+  | 0, c :: cs => if a.isPrefixOf (c :: cs) then b ++ replaceL a b (a.length - 1) cs else c :: replaceL a b 0 cs
+
+/-- `s.replace(a, b)` for a non-empty `a` -/
+def replace (s a b : String) : String := String.ofList (replaceL a.toList b.toList 0 s.toList)
+
+/-- `s[k:]` -/
+def dropStr (s : String) (k : Nat) : String := String.ofList (s.toList.drop k)
 
 /-- `int(q)` for a rational standing for a float: truncation toward zero -/
 def truncRat (q : Rat) : Int := if 0 ≤ q then q.floor else -((-q).floor)
